@@ -816,3 +816,27 @@ func (w *world) drainedChecks() {
 		}
 	}
 }
+
+// onHTTP: monitors over HTTP answers (C16/C17): the body is well-formed JSON; error statuses follow the table.
+func (m *monitors) onHTTP(h *httpReq) {
+	body := strings.TrimSpace(h.rec.Body.String())
+	if body != "" && !json.Valid([]byte(body)) {
+		m.w.addViolation("C16", "malformed-body", "HTTP response body is not well-formed JSON: "+body)
+	}
+	if h.rec.Code >= 400 && body != "" {
+		var e struct {
+			Code string `json:"code"`
+		}
+		if json.Unmarshal([]byte(body), &e) == nil && e.Code != "" {
+			want := map[string]int{"system.notFound": 404, "system.methodNotFound": 404, "system.timeout": 404, "system.accessDenied": 401,
+				"system.forbidden": 403, "system.methodNotAllowed": 405, "system.subjectTooLong": 414, "system.internalError": 500, "system.serviceUnavailable": 503}
+			w, ok := want[e.Code]
+			if !ok {
+				w = 400
+			}
+			if h.rec.Code != w && !h.direct {
+				m.w.addViolation("C17", "wrong-status", fmt.Sprintf("error %s answered with HTTP status %d, expected %d", e.Code, h.rec.Code, w))
+			}
+		}
+	}
+}
